@@ -45,6 +45,8 @@ type RunCase struct {
 	Exp    Outcome `json:"exp"`
 	Dev    DevMap  `json:"dev,omitempty"`
 	Budget *int    `json:"budget,omitempty"`
+	I64    *Val    `json:"i64,omitempty"` // C03: the value under AsInt64
+	F64    *Val    `json:"f64,omitempty"` // C03: the value under AsFloat64
 }
 
 type Case struct {
@@ -56,9 +58,10 @@ type Case struct {
 	Tags []string  `json:"tags,omitempty"`
 	Runs []RunCase `json:"runs"`
 	// C18 / C17 / C02 style: a second source that must agree with the first
-	Src2 string `json:"src2,omitempty"`
-	Law  string `json:"law,omitempty"`
-	Alt  bool   `json:"alt,omitempty"` // C17: compile against the alternative environment (Add takes float64)
+	Src2  string `json:"src2,omitempty"`
+	Law   string `json:"law,omitempty"`
+	Typed bool   `json:"typed,omitempty"` // C03: every operand is statically typed
+	Alt   bool   `json:"alt,omitempty"`   // C17: compile against the alternative environment (Add takes float64)
 }
 
 // Failure is one real execution that contradicts the specification.
@@ -411,6 +414,14 @@ func (r *replayer) dispatch(line []byte) error {
 			return err
 		}
 		r.histCase(c)
+	case "C03S":
+		var c Case
+		if err := json.Unmarshal(line, &c); err != nil {
+			return err
+		}
+		r.soundCase(c)
+	case "C03R":
+		return r.rejectCase(line)
 	case "C13":
 		var c ErrCase
 		if err := json.Unmarshal(line, &c); err != nil {
